@@ -140,6 +140,7 @@ fn check_program(p: &Program, l: &mut Local) -> Outcome {
         l.label("skipped: longer than 4096 chars");
         return Ok(());
     }
+    vcore::journal("C01", || p.case_json());
     match vcore::catch(|| exercise(&p.src, &p.ctx)) {
         Ok((built, evaluated)) => {
             l.label(match p.family {
@@ -173,6 +174,7 @@ fn check_program(p: &Program, l: &mut Local) -> Outcome {
 
 /// One builtin call through three routes, with formatting of the result.
 fn check_builtin(name: &str, arg: &RV, tree: &Tree, l: &mut Local) -> Outcome {
+    vcore::journal("C01", || json!({"kind": "builtin", "name": name, "arg": arg.canon()}));
     let r = vcore::catch(|| {
         let ctx = matrix::ctx_with_x(arg);
         let r = tree.eval_with_context(&ctx);
@@ -218,6 +220,7 @@ fn check_builtin(name: &str, arg: &RV, tree: &Tree, l: &mut Local) -> Outcome {
 fn check_operator(op: usize, a: &RV, b: &RV, l: &mut Local) -> Outcome {
     // reuse C03's evaluation routes; only the absence of a panic is asserted here
     let mut scratch = Local::default();
+    vcore::journal("C01", || json!({"kind": "op", "op": op, "a": a.canon(), "b": b.canon(), "readable": format!("{} {} {}", a, c03::op_symbol(op), b)}));
     match c03::check_op(op, a, b, None, true, &mut scratch) {
         Err(f) if f.signature.contains("panic") => fail(
             format!("C01 operator {}", f.signature),
